@@ -52,6 +52,8 @@ var configs = map[string]config{
 	"g2": {Tables: []tableCfg{{"a", false, "g"}, {"b", true, "g"}}, MaxFile: 64},
 	// a non-prunable compressed table and a prunable raw one (the chain freezer's shape)
 	"mixed": {Tables: []tableCfg{{"a", false, ""}, {"b", true, "g"}}, MaxFile: 64},
+	// three tables, two tail groups and a non-prunable table
+	"g3": {Tables: []tableCfg{{"a", false, ""}, {"b", true, "g"}, {"c", false, "h"}}, MaxFile: 64},
 }
 
 func (c config) verifTables() []rawdb.VerifTable {
@@ -807,8 +809,11 @@ func (rn *runner) history(h int, steps int, script string) {
 			rn.head = min(rn.head, arg)
 			rn.synced = min(rn.synced, arg)
 			rn.ret("thead", err)
-		case 't':
+		case 't', 'u':
 			grp := rn.cfg.groups()[0]
+			if kind == 'u' {
+				grp = rn.cfg.groups()[len(rn.cfg.groups())-1]
+			}
 			rn.tr.Emit(tl.M{"op": "call", "name": "ttail", "ids": []int{}, "sizes": rn.sizes(nil), "n": arg, "group": grp})
 			_, err := rn.fr.TruncateTail(grp, uint64(arg))
 			rn.tail[grp] = max(rn.tail[grp], arg)
@@ -881,10 +886,15 @@ func (rn *runner) history(h int, steps int, script string) {
 			if unsyncedTail {
 				hi = rn.head
 			}
-			if hi <= rn.tail[g[0]] {
+			gi := rn.r.Intn(len(g))
+			if hi <= rn.tail[g[gi]] {
 				continue
 			}
-			do('t', rn.tail[g[0]]+1+rn.r.Intn(hi-rn.tail[g[0]]))
+			kind := byte('t')
+			if gi == len(g)-1 && gi > 0 {
+				kind = 'u'
+			}
+			do(kind, rn.tail[g[gi]]+1+rn.r.Intn(hi-rn.tail[g[gi]]))
 		default: // main-line crash: continue on one of the images
 			if crashes >= 2 {
 				continue
